@@ -508,6 +508,44 @@ private :
     ReaderMgr*  fMgr;
 };
 
+//
+//  This is a simple class that pops, when it goes out of scope, any readers
+//  that were pushed on top of the reader that was current when it was
+//  created. It is used around the scan of a DTD: readers pushed for parameter
+//  entities refer to declarations owned by the (stack based) DTDScanner, so
+//  they must not stay on the reader stack when an exception unwinds through
+//  the scan, because the reader stack is consulted again when that exception
+//  is reported.
+//
+class XMLPARSER_EXPORT ReaderStackJanitor
+{
+public :
+    ReaderStackJanitor(ReaderMgr* mgrTarget) :
+
+        fMgr(mgrTarget)
+        , fReaderNum(mgrTarget->getCurrentReaderNum())
+    {
+    }
+
+    ~ReaderStackJanitor()
+    {
+        try
+        {
+            fMgr->cleanStackBackTo(fReaderNum);
+        }
+        catch(...)
+        {
+        }
+    }
+
+private :
+    ReaderStackJanitor(const ReaderStackJanitor&);
+    ReaderStackJanitor& operator=(const ReaderStackJanitor&);
+
+    ReaderMgr*  fMgr;
+    XMLSize_t   fReaderNum;
+};
+
 }
 
 #endif
